@@ -1,7 +1,7 @@
 """C17 - untrusted bytes and valid calls never cause out-of-bounds access / misaligned access.
 Rules: R-ALIGN (every pointer cast, every configuration), R-BOUNDS (constant-extent arrays under
 constant-bounded loops), R-FOOT/R-LEN (marshal footprints and length guards), R-ASM (thorough)."""
-from .. import layout, ranges, marshal
+from .. import layout, ranges, marshal, asmcheck
 from ..facts import walk, loc_str, strip, strip_tmpl
 
 EXPL = ('Decides the structural mechanisms behind memory safety of the parsing and arithmetic code, in every analysis '
@@ -13,6 +13,11 @@ EXPL = ('Decides the structural mechanisms behind memory safety of the parsing a
         'guard the unsigned subtraction and the division, setLength stores only valid lengths, and every marshal/'
         'unmarshal walks exactly the bytes its length formula reports; (R-ASM, thorough) the assembly routines touch '
         'only their argument footprints and their own frame. Does not decide general UB-freedom (a sanitizer matter).')
+
+
+def bm_configs():
+    from .. import buildmodel
+    return buildmodel.configs()
 
 
 def is_library_file(path):
@@ -266,5 +271,9 @@ def run(ctx):
         ctx.floor('R-FOOT footprint cases[%s]' % cfg, nf, 30)
         nl = marshal.rule_len(ctx, cfg, prog)
         ctx.floor('R-LEN functions[%s]' % cfg, nl, 4)
+        import os
+        na = asmcheck.rule_asm(ctx, cfg, prog, os.path.join(ctx.outdir, 'asm'))
+        if bm_configs()[cfg]['arch'] in ('x86_64', 'aarch64') and bm_configs()[cfg]['asm']:
+            ctx.floor('R-ASM routines[%s]' % cfg, na, 5)
         nb = rule_bounds(ctx, cfg, prog)
         ctx.floor('R-BOUNDS subscripts[%s]' % cfg, nb, 150)
